@@ -182,24 +182,31 @@ def limitTotal : Nat := 64
 /-- `Extractor::enforce_literal_len`. -/
 def enforceLiteralLen (t : TSeq) : TSeq := t.keepFirstBytes limitLiteralLen
 
+/-- `max_cross_len(..).map_or(false, |len| len > limit_total)` -/
+def overCross (a b : Seq) : Bool :=
+  match a.maxCrossLen b with
+  | some len => len > limitTotal
+  | none => false
+
+/-- `max_union_len(..).map_or(false, |len| len > limit_total)` -/
+def overUnion (a b : Seq) : Bool :=
+  match a.maxUnionLen b with
+  | some len => len > limitTotal
+  | none => false
+
 /-- `Extractor::cross`. -/
 def exCross (t1 t2 : TSeq) : TSeq :=
   if !t2.pre then t1.choose t2
   else
-    let s2 : Seq := match t1.seq.maxCrossLen t2.seq with
-      | some len => if len > limitTotal then none else t2.seq
-      | none => t2.seq
+    let s2 : Seq := if overCross t1.seq t2.seq then none else t2.seq
     enforceLiteralLen { t1 with seq := t1.seq.crossForward s2 }
 
 /-- `Extractor::union`. -/
 def exUnion (t1 t2 : TSeq) : TSeq :=
-  let over (a b : Seq) : Bool := match a.maxUnionLen b with
-    | some len => len > limitTotal
-    | none => false
-  if over t1.seq t2.seq then
+  if overUnion t1.seq t2.seq then
     let a := (t1.seq.keepFirstBytes 4).dedup
     let b := (t2.seq.keepFirstBytes 4).dedup
-    let b := if over a b then none else b
+    let b := if overUnion a b then none else b
     ⟨a.union b, t1.pre && t2.pre⟩
   else ⟨t1.seq.union t2.seq, t1.pre && t2.pre⟩
 
